@@ -191,7 +191,12 @@ def case_term(case):
     m = gennet.to_cobra(net, case["solver"])
     with warnings.catch_warnings():
         warnings.simplefilter("ignore")
-        exch = {r.id for r in m.exchanges}
+        impl_exch = {r.id for r in m.exchanges}
+    # the exchanges as documented, decided without the implementation's classifier: one metabolite, in the external
+    # compartment (the generated networks name it "e"), identifier without an exclusion fragment (case-sensitive)
+    from cobra.medium.annotations import excludes
+    exch = {r["id"] for r in net["rxns"]
+            if len(r["st"]) == 1 and list(r["st"])[0].endswith("_e") and not any(f in r["id"] for f in excludes["exchange"])}
     net2 = opened_net(net, exch) if case["open"] else net
     er = exact_ranges(net2)
     if er is None:
@@ -258,6 +263,7 @@ def case_term(case):
         "true" if case["open"] else "false", "; ".join("%d%%nat" % pos[i] for i in L), "; ".join(certs), impl, fast)
     nb = sum(1 for v in vals if v[0] == 0 and v[1] == 0)
     obs["exact_blocked"] = [i for i, v in zip(ids_all, vals) if v[0] == 0 and v[1] == 0]
+    obs["exchanges_documented"], obs["exchanges_implementation"] = sorted(exch), sorted(impl_exch)
     return term, {"obs": obs, "nontrivial": 0 < nb < len(vals),
                   "stats": {"solver": case["solver"], "open_exchanges": case["open"], "reaction_list": "all" if sub is None
                             else ("objects" if case["objects"] else "ids"), "processes": case["processes"],
